@@ -4,6 +4,7 @@ The property quantifies over histories of batches and compares accumulated float
 not decidable statically.  What is in the shape of the code, for every history at once, is decided here."""
 from .core import RuleResult
 from .facts import fn_key, fn_loc, fn_file, walk, strip, peel_refs, pat_bindings, Render
+from .facts import lit_float, lit_number
 
 LEVEL = ("Static analysis of the incremental learners. Decided, for all histories: (batch) naive Bayes `fit` is `fit_with` "
          "started from the empty model, with the dataset handed through; (carry) `fit_with` continues from the model it is "
@@ -336,7 +337,7 @@ def rule_kmeans(ctx):
             den = peel_refs(d0["r"])
             den_is_cnt = den.get("k") == "Index" and peel_refs(den["e"]).get("local") == cnt_local
             one = peel_refs(incs[0]["r"])
-            inc_one = (one.get("k") == "Call" and (c.dfn(strip(one["f"]).get("def")) or {}).get("name") == "one") or (one.get("k") == "Lit" and str(one.get("v")).rstrip(".0f3264_") in ("1", ""))
+            inc_one = (one.get("k") == "Call" and (c.dfn(strip(one["f"]).get("def")) or {}).get("name") == "one") or (one.get("k") == "Lit" and lit_float(one.get("v")) == 1.0)
             if not den_is_cnt:
                 res.violate("%s : divisor-not-cumulative-count" % key, "the shift towards the observation is divided by `%s`, not by the cumulative count of its cluster" % r.e(den)[:40], fn_loc(fn, d0["ln"]))
             elif (incs[0].get("ln") or 0) > (d0.get("ln") or 0):
@@ -817,9 +818,8 @@ def rule_sigma0(ctx):
             if k_ == "Path" and e.get("local") in env:
                 return env[e["local"]]
             if k_ == "Lit":
-                try:
-                    v = float(str(e.get("v")).replace("_", "").rstrip("f3264"))
-                except ValueError:
+                v = lit_float(e.get("v"))
+                if v is None:
                     return "?"
                 return "Z" if v == 0 else ("P" if v > 0 else "?")
             if k_ == "Block":
@@ -908,7 +908,9 @@ def rule_fitcounts(ctx):
 
 def rules(tier):
     from . import carry, precision, layout
-    return [rule_everybatch, rule_pooledvar, rule_classes, rule_sigma0, layout.make_rule("R-C15-memorder", "raw memory-order buffers are used by position only behind a standard-layout test", lambda f: f["d"]["krate"] in ("linfa_bayes", "linfa_ftrl"), "linfa-bayes and linfa-ftrl"),
+    from . import blockmean
+    return [blockmean.make_offset_rule("R-C15-blockoffset", lambda f: f["d"]["krate"] in ("linfa_bayes", "linfa_ftrl"), "linfa-bayes and linfa-ftrl"),
+            rule_everybatch, rule_pooledvar, rule_classes, rule_sigma0, layout.make_rule("R-C15-memorder", "raw memory-order buffers are used by position only behind a standard-layout test", lambda f: f["d"]["krate"] in ("linfa_bayes", "linfa_ftrl"), "linfa-bayes and linfa-ftrl"),
             rule_fitcounts, carry.make_fieldcopy_rule("R-C15-fieldcopy", {"linfa_bayes", "linfa_ftrl", "linfa_clustering"}, 0),
             rule_batch, rule_carry_state, rule_epsilon, rule_counts, rule_kmeans, rule_ftrl,
             carry.make_clone_rule("R-C15-clone", {"linfa_bayes", "linfa_ftrl"}, 6), carry.make_setter_rule("R-C15-override", {"linfa_bayes", "linfa_ftrl"}, 4),
